@@ -9,31 +9,55 @@ recorded before a batch of additions gives the map back -/
 structure RollBackSpec {SM : Type} (ops : SymMapOps SM) : Prop where
   restores : ∀ (m : SM) (ns : List Name), ops.rollBack (ns.foldl ops.add m) (ops.len m) = m
 
-def BuildOp.isMacro : BuildOp → Bool
-  | .defineMacro _ => true
-  | _ => false
+/-- the macro names an op puts into the global macro map -/
+def BuildOp.macros : BuildOp → List Name
+  | .defineMacro n => [n]
+  | .requireModule _ ms => ms
+  | .failExpand => []
+
+def BuildOp.isMacro (o : BuildOp) : Bool := !o.macros.isEmpty
+
+/-- the macro names the ops that are executed (those before the first failure) put into the map -/
+def executedMacros : List BuildOp → List Name
+  | [] => []
+  | .failExpand :: _ => []
+  | o :: rest => o.macros ++ executedMacros rest
 
 theorem expandOps_frame {SM : Type} (ops : List BuildOp) (s s' : BuildState SM) (r : BuildResult)
     (h : expandOps ops s = (r, s')) :
     s'.symbols = s.symbols ∧ s'.rollbackMetadata = s.rollbackMetadata ∧ s'.rollbackModules = s.rollbackModules ∧
-    s'.sources = s.sources ∧ (ops.all (fun o => !o.isMacro) = true → s'.macros = s.macros) := by
+    s'.sources = s.sources ∧ s'.macros = s.macros ++ executedMacros ops := by
   induction ops generalizing s with
-  | nil => simp [expandOps] at h; obtain ⟨_, rfl⟩ := h; simp
+  | nil => simp [expandOps] at h; obtain ⟨_, rfl⟩ := h; simp [executedMacros]
   | cons o rest ih =>
     cases o with
-    | requireModule m =>
+    | requireModule m ms =>
       simp only [expandOps] at h
       have := ih _ h
-      simpa [BuildOp.isMacro] using this
+      simpa [executedMacros, BuildOp.macros, List.append_assoc] using this
     | defineMacro n =>
       simp only [expandOps] at h
       have := ih _ h
-      refine ⟨this.1, this.2.1, this.2.2.1, this.2.2.2.1, ?_⟩
-      intro hall
-      simp [BuildOp.isMacro] at hall
+      simpa [executedMacros, BuildOp.macros, List.append_assoc] using this
     | failExpand =>
       simp [expandOps] at h
       obtain ⟨_, rfl⟩ := h
-      simp
+      simp [executedMacros]
+
+theorem executedMacros_nil_of_no_macro (ops : List BuildOp) (h : ops.all (fun o => !o.isMacro) = true) :
+    executedMacros ops = [] := by
+  induction ops with
+  | nil => rfl
+  | cons o rest ih =>
+    simp only [List.all_cons, Bool.and_eq_true] at h
+    cases o with
+    | failExpand => rfl
+    | requireModule m ms =>
+      have h1 := h.1
+      simp [BuildOp.isMacro, BuildOp.macros] at h1
+      simp [executedMacros, BuildOp.macros, h1, ih h.2]
+    | defineMacro n =>
+      have h1 := h.1
+      simp [BuildOp.isMacro, BuildOp.macros] at h1
 
 end SteelVerif.C07
